@@ -356,8 +356,8 @@ func memoOnLifetimeRoot(container string, roots map[string]bool) bool {
 
 func init() {
 	Register(&Rule{ID: "R-MEMO-2", Props: []string{"C15", "C03"}, Floor: 3,
-		Doc:      "a memo kept in a field of lib/query.ReferenceScope is shared only between scopes that agree on its inputs: for every map / sync.Map field F of ReferenceScope that some function fills with a computed value (directly, or through a store wrapper judged at its call sites), the other fields G of the same scope object that the stored value is computed from are collected (the resolved file path is computed from scope.Tx; a looked-up function would be computed from scope.Blocks); every function that builds a new scope and lets it inherit F from a parent (N.F = P.F) must let it inherit each such G from the same parent unchanged. A derived scope with its own block chain (CreateChild: a function invocation, an IF / WHILE body) that shares a memo computed from the parent's chain resolves names as the caller does — local declarations stop shadowing outer ones. Decides the agreement of memo and inputs across scope constructors, not the contents",
-		Controls: []string{"CtlMemoInheritedWithoutInputs"},
+		Doc:      "a memo kept in a field of lib/query.ReferenceScope is shared only between scopes that agree on its inputs: for every map / sync.Map field F of ReferenceScope that some function fills with a computed value (directly, or through a store wrapper judged at its call sites), the other fields G of the same scope object that the stored value is computed from are collected (the resolved file path is computed from scope.Tx; a looked-up function would be computed from scope.Blocks); every function that builds a new scope and lets it inherit F from a parent on some path (N.F = P.F, also when the parent's value is first read into a local that is defaulted when the parent has none — the stored value is a φ one of whose origins is P.F — or is handed out by a csvq helper that returns the F of the scope it is given) must let it inherit each such G from the same parent unchanged: every store into N.G stores P.G and nothing else on every path. A derived scope with its own block chain (CreateChild: a function invocation, an IF / WHILE body) that shares a memo computed from the parent's chain resolves names as the caller does — local declarations stop shadowing outer ones. Decides the agreement of memo and inputs across scope constructors, not the contents",
+		Controls: []string{"CtlMemoInheritedWithoutInputs", "CtlMemoDefaultedLocalSharedWithoutInputs", "CtlMemoInputReplacedOnOnePath", "CtlMemoFromHelperWithoutInputs"},
 		Run:      ruleMemo2})
 }
 
@@ -536,13 +536,65 @@ func ruleMemo2(c *Ctx) {
 			memoFields = append(memoFields, f)
 		}
 		sort.Ints(memoFields)
-		for _, fn := range fns {
-			// per new object N: field → (parent object, parent field) when inherited, or nil
-			type inh struct {
-				parent ssa.Value
-				st     *ssa.Store
+		// inheritedFrom: the scope objects whose field f the value may be — looked at through what the value may be on
+		// any path (φ of a defaulted local: `m := p.F; if m == nil { m = make(…) }`, a local cell, a conversion) and
+		// through a csvq helper that returns the field of the scope it is handed. all=true when the value can be
+		// nothing else than the field f of one and the same object
+		var inheritedFrom func(v ssa.Value, f int, N ssa.Value, depth int) (parents []ssa.Value, all bool)
+		inheritedFrom = func(v ssa.Value, f int, N ssa.Value, depth int) (parents []ssa.Value, all bool) {
+			all = true
+			add := func(P ssa.Value) {
+				for _, q := range parents {
+					if q == P {
+						return
+					}
+				}
+				parents = append(parents, P)
 			}
-			stores := map[ssa.Value]map[int]inh{}
+			for _, o := range core.Origins(v, false) {
+				if P, pf := scopeField(o); P != nil && pf == f && P != N {
+					add(P)
+					continue
+				}
+				if call, ok := o.(*ssa.Call); ok && depth < 3 {
+					if g := call.Common().StaticCallee(); g != nil && inModule(g) && g.Blocks != nil && g.Signature.Results().Len() == 1 {
+						rets := core.ReturnedValues(g, 0)
+						okAll := len(rets) > 0
+						for _, r := range rets {
+							ps, a := inheritedFrom(r, f, nil, depth+1)
+							if !a {
+								okAll = false
+							}
+							for _, p := range ps {
+								if i := paramIdx(g, p); i >= 0 && i < len(call.Common().Args) && call.Common().Args[i] != N {
+									add(call.Common().Args[i])
+								} else {
+									okAll = false
+								}
+							}
+						}
+						if okAll {
+							continue
+						}
+					}
+				}
+				all = false
+			}
+			if len(parents) != 1 {
+				all = false
+			}
+			return
+		}
+		for _, fn := range fns {
+			// per new object N and field: the parent it may inherit the field from on some path (may: what makes a memo
+			// shared) and the parent it inherits the field from on every path and in every store (must: what an input
+			// of the memo has to satisfy)
+			type inh struct {
+				may, must ssa.Value
+				st        *ssa.Store
+				n         int
+			}
+			stores := map[ssa.Value]map[int]*inh{}
 			var order []ssa.Value
 			for _, b := range fn.Blocks {
 				for _, in := range b.Instrs {
@@ -556,22 +608,35 @@ func ruleMemo2(c *Ctx) {
 					}
 					N := fa.X
 					if stores[N] == nil {
-						stores[N] = map[int]inh{}
+						stores[N] = map[int]*inh{}
 						order = append(order, N)
 					}
-					var parent ssa.Value
-					if P, pf := scopeField(s.Val); P != nil && pf == fa.Field && P != N {
-						parent = P
+					parents, all := inheritedFrom(s.Val, fa.Field, N, 0)
+					var may, must ssa.Value
+					if len(parents) > 0 {
+						may = parents[0]
 					}
-					if old, seen := stores[N][fa.Field]; !seen || old.parent == nil && parent != nil {
-						stores[N][fa.Field] = inh{parent, s}
+					if all {
+						must = parents[0]
+					}
+					e := stores[N][fa.Field]
+					if e == nil {
+						stores[N][fa.Field] = &inh{may, must, s, 1}
+						continue
+					}
+					e.n++
+					if e.may == nil && may != nil {
+						e.may, e.st = may, s
+					}
+					if e.must != must {
+						e.must = nil
 					}
 				}
 			}
 			for _, N := range order {
 				for _, f := range memoFields {
 					e, ok := stores[N][f]
-					if !ok || e.parent == nil {
+					if !ok || e.may == nil {
 						continue
 					}
 					n++
@@ -587,7 +652,7 @@ func ruleMemo2(c *Ctx) {
 					for _, g := range ins {
 						names = append(names, st.Field(g).Name())
 						ge, has := stores[N][g]
-						if !has || ge.parent != e.parent {
+						if !has || ge.must != e.may {
 							missing = append(missing, st.Field(g).Name())
 						}
 					}
